@@ -266,6 +266,46 @@ def _cmod_python(I, a, m):
     return stmt(to_z3(a), to_z3(m))
 
 
+@reg('mod_shift')
+def _mod_shift(I, i0, L):
+    """PROVED lemma for the uninterpreted pymod (opt-in `uninterpreted_mod`): shifting by s = (i0 % L) - i0, a multiple of L,
+    does not change the residue:  for all b, c with b - c == s:  pymod(b, L) == pymod(c, L)   (L >= 1).
+    The closed statement - with the defining property of pymod/pyfloordiv for the three terms involved as hypotheses - is an
+    obligation of this run (QF_NIA + UF, cvc5); the quantified instance for (i0, L) is returned, triggered only on pairs of
+    existing terms pymod(b, L), pymod(c, L)."""
+    from .interp import Obligation
+    M, D = Interp.MODU, Interp.DIVU
+    x, y, b0, c0 = z3.Int('lemma!i0'), z3.Int('lemma!L'), z3.Int('lemma!b'), z3.Int('lemma!c')
+    # hint for the nonlinear step: d := qb - qc + qx and the ring identity y*d == y*qb - y*qc + y*qx (itself an obligation)
+    d = z3.Int('lemma!d')
+    ring = y * (D(b0, y) - D(c0, y) + D(x, y)) == y * D(b0, y) - y * D(c0, y) + y * D(x, y)
+    closed = z3.Implies(z3.And(y >= 1, Interp.umod_def(x, y), Interp.umod_def(b0, y), Interp.umod_def(c0, y), b0 - c0 == M(x, y) - x,
+                               d == D(b0, y) - D(c0, y) + D(x, y), y * d == y * D(b0, y) - y * D(c0, y) + y * D(x, y)),
+                        M(b0, y) == M(c0, y))
+    I.n_oblig += 2
+    I.obligs.append(Obligation(f'{I.qual}#lemma:mod_shift-ring-identity', [], ring, 'lemma', {'clause': 'y*(p - q + r) == y*p - y*q + y*r'}))
+    I.obligs.append(Obligation(f'{I.qual}#lemma:mod_shift', [], closed, 'lemma',
+                               {'clause': 'L >= 1 and b - c == (i0 % L) - i0  ==>  b % L == c % L', 'prefer': 'cvc5'}))
+    zi, zl = to_z3(i0), to_z3(L)
+    b, c = z3.Int('b!ms'), z3.Int('c!ms')
+    s = M(zi, zl) - zi
+    return z3.ForAll([b, c], z3.Implies(z3.And(zl >= 1, b - c == s), M(b, zl) == M(c, zl)),
+                     patterns=[z3.MultiPattern(M(b, zl), M(c, zl))])
+
+
+@reg('mod_small')
+def _mod_small(I, a, L):
+    """PROVED lemma for the uninterpreted pymod: 0 <= a < L  ==>  a % L == a  (closed statement: obligation of this run)."""
+    from .interp import Obligation
+    M = Interp.MODU
+    x, y = z3.Int('lemma!a'), z3.Int('lemma!L')
+    I.n_oblig += 1
+    I.obligs.append(Obligation(f'{I.qual}#lemma:mod_small', [], z3.Implies(z3.And(0 <= x, x < y, Interp.umod_def(x, y)), M(x, y) == x),
+                               'lemma', {'clause': '0 <= a < L ==> a % L == a', 'prefer': 'cvc5'}))
+    za, zl = to_z3(a), to_z3(L)
+    return z3.Implies(z3.And(0 <= za, za < zl), M(za, zl) == za)
+
+
 @reg('c_div')
 def _c_div(I, a, b):
     """C integer division (truncation towards zero): what `//` means under Cython's cdivision(True)"""
